@@ -20,10 +20,10 @@ LEVEL_TEXT = {
         "technique": "deterministic simulation: seeded scheduler + fault plan over an instrumented DBI, lifecycle monitor, rapid shrinking, exact replay",
     },
     "C05": {
-        "text": "Seeded exploration of interleavings of in-flight queries with the steps of full/partial/failing reloads on the real handler and the real CDB and RocksDB drivers, generation-stamped data so that every response names the generation(s) it was computed from. Oracles: one stamp per response, a failed reload never becomes visible, a partial reload follows the path last switched to (decoy generation on the previous path), and the reload/query history is linearizable as a register (porcupine, event sequence numbers). Violations are minimised by rapid and replay exactly. Evidence, not proof.",
+        "text": "Seeded exploration of interleavings of in-flight queries with the steps of full/partial/failing reloads on the real handler and the real CDB and RocksDB drivers, generation-stamped data so that every response names the generation(s) it was computed from. Oracles: one stamp per response, a failed reload never becomes visible, a partial reload follows the path last switched to (decoy generation on the previous path), and the reload/query history is linearizable as a register (porcupine, event sequence numbers). Violations are minimised by rapid and replay exactly. A second, free-running tier (the property's quantifier names it) runs six query workers and one synchronous operator on real cores with the hooks in perturbation mode and judges only timing-independent invariants (a query started after a successful reload returned carries at least that generation, per-worker stamps never decrease, a failed generation is never served, one stamp per response, outcome of valid / missing / key-less switches, served generation at quiescence). Evidence, not proof.",
         "design_ref": "§5.1",
-        "note": "Trusts the stamp extraction, the monitor wrapper and porcupine. Interleavings are at yield-point granularity; RocksDB background threads are unscheduled. Three genuine defects of the RocksDB in-place catch-up are listed in known_findings.jsonl and matched by signature (backend + cause), never by property alone.",
-        "technique": "deterministic simulation: seeded scheduler over real handler + real storage drivers, generation stamps, register linearizability (porcupine), fault plan for reloads, exact replay",
+        "note": "Trusts the stamp extraction, the monitor wrapper and porcupine. Interleavings of the controlled tier are at yield-point granularity; the free-running tier reaches finer ones but does not replay instruction-exactly (its report is re-run from the same seed). RocksDB background threads are unscheduled. Three genuine defects of the RocksDB in-place catch-up are listed in known_findings.jsonl and matched by signature (backend + cause), never by property alone.",
+        "technique": "deterministic simulation: seeded scheduler over real handler + real storage drivers, generation stamps, register linearizability (porcupine), fault plan for reloads (incl. low-level catch-up failure), exact replay; plus a seeded free-running stress tier with timing-independent invariants",
     },
     "C12": {
         "text": "Same simulated server with the response cache on: every response is compared with a cache-off handler of the same backend kind on the generation it carries (sections as multisets, owner case folded, weighted answers by membership), and the history must be linearizable as a register so that an old-generation answer served after a completed reload is a stale read. Query mix is concentrated on few cache keys (locations, types, unusual classes whose key texts collide, EDNS/ECS, case), LRU size from 1, clock jumps across the 1000 s entry lifetime. Evidence, not proof.",
